@@ -6,6 +6,10 @@ props = [json.loads(l) for l in open(os.path.join(VERIF, 'properties.jsonl'))]
 ids = [p['id'] for p in props]
 
 CHECKS = {
+ 'C10': dict(engine='E1 enum', category='exploration', design_ref='3 C10',
+   technique='deviation-bounded exhaustive mutation of valid requests (all truncations, all single / double structural deviations, all <= 2-byte documents)',
+   text='A corpus of valid requests (9 quick / 17 thorough atoms x positions field/array/argument) for every input protocol (XmlDocument, Soap11, Soap12 x validator None/soft/lxml; JSON, YAML, MessagePack, MessagePackRpc x None/soft; HttpRpc x None/soft) through ServerBase and through WsgiApplication. Deviation 1 exhaustively: every prefix truncation, every leaf text x a 21-item corruption alphabet, every element/key deleted, duplicated, renamed, re-qualified, nil-ed, re-kinded, nested deeper or shallower, empty and garbled documents; all 256 one-byte and 961 two-byte structural documents; thorough adds all pairs of structural mutations. Nothing may escape the pipeline or the WSGI callable; a fault must decode with the reference decoder, be in the Client family (4xx for non-SOAP, 500 for SOAP), and the function must not have run.',
+   note='"all byte strings" is covered only as these finite families; random bytes are not drawn (sampling is a different family).'),
  'C04': dict(engine='E1 enum', category='exploration', design_ref='3 C04',
    technique='exhaustive single type-directed mutation of valid requests; type walk of the arguments captured in user code',
    text='For valid requests of a program with inheritance, unrelated classes, arrays, repeated members, enums and ten primitive kinds (and a SOAP header program): every element retagged xsi:type with every class key of the interface plus XSD built-ins (prefixes bound in the document) under validator None/soft/lxml for XmlDocument, Soap11 and Soap12; every node of the JSON/YAML/MessagePack document replaced by every other value kind and every wrapper key renamed to every other class name and to an unknown one, for ignore_wrappers x polymorphic under soft validation; an index, a sub-key, a truncation and a duplicate on every HttpRpc key. The oracle walks what the user function received against the declared type tree; if the function did not run the answer must be a Client-family fault.',
